@@ -406,6 +406,13 @@ pub fn packed_node_size(data: &Vec<u8>, num_children: u8) -> usize {
 	data.len() + num_children as usize * 8 + 1
 }
 
+/// The number of children is stored in a single byte at the end of a packed node.
+fn packed_child_count(num_children: usize) -> Result<u8> {
+	u8::try_from(num_children).map_err(|_| {
+		Error::InvalidInput(format!("Node has {} children, at most 255 are supported", num_children))
+	})
+}
+
 pub fn unpack_node_data(data: Vec<u8>) -> Result<(Vec<u8>, Children)> {
 	if data.len() == 0 {
 		return Err(Error::InvalidValueData)
@@ -1029,7 +1036,7 @@ impl HashColumn {
 		tables: TablesRef,
 		tier_count: &mut HashMap<usize, usize>,
 	) -> Result<()> {
-		let data_size = packed_node_size(&node.data, node.children.len() as u8);
+		let data_size = packed_node_size(&node.data, packed_child_count(node.children.len())?);
 
 		let table_key = TableKey::NoHash;
 
@@ -1089,9 +1096,9 @@ impl HashColumn {
 		tier_index: &mut HashMap<usize, usize>,
 		node_values: &mut Vec<NodeChange>,
 	) -> Result<NodeAddress> {
-		let num_children = node.children.len();
+		let num_children = packed_child_count(node.children.len())?;
 
-		let data_size = packed_node_size(&node.data, num_children as u8);
+		let data_size = packed_node_size(&node.data, num_children);
 
 		let table_key = TableKey::NoHash;
 
@@ -1116,7 +1123,7 @@ impl HashColumn {
 			node_values,
 			&mut data,
 		)?;
-		data.push(num_children as u8);
+		data.push(num_children);
 
 		// Can't support compression as we need to know the size earlier to get the tier.
 		let val: RcValue = data.into();
@@ -1135,6 +1142,9 @@ impl HashColumn {
 	) -> Result<(Vec<u8>, Vec<NodeChange>)> {
 		match change {
 			Operation::InsertTree(_key, node) => {
+				// Reject a root that can't be represented before any entry is claimed.
+				let num_children = packed_child_count(node.children.len())?;
+
 				let tables = self.tables.upgradable_read();
 
 				let values = self.as_ref(&tables.value);
@@ -1152,8 +1162,7 @@ impl HashColumn {
 
 				let mut node_values: Vec<NodeChange> = Default::default();
 
-				let num_children = node.children.len();
-				let data_size = packed_node_size(&node.data, num_children as u8);
+				let data_size = packed_node_size(&node.data, num_children);
 				let mut data: Vec<u8> = Vec::with_capacity(data_size);
 				data.extend_from_slice(&node.data);
 				self.claim_children_to_data(
@@ -1164,7 +1173,7 @@ impl HashColumn {
 					&mut node_values,
 					&mut data,
 				)?;
-				data.push(num_children as u8);
+				data.push(num_children);
 
 				return Ok((data, node_values))
 			},
